@@ -62,10 +62,10 @@ Proof. exact byte_span_spec. Qed.
 Print Assumptions C10_byteSpan.
 
 (* ---- the in-order path ---------------------------------------------------------------- *)
-Theorem C10_inorder_path : forall st c ns fin rst payload ts,
+Theorem C10_inorder_path : forall st c ns fin rst payload ts goff,
   s_dead st = false -> s_conn st = Some c -> c_queue c = [] -> c_nextSeq c = ns ->
   0 <= ns < 4294967296 -> (payload <> [] \/ fin = true \/ rst = true) ->
-  let r := step st (Segment ns false fin rst payload ts) in
+  let r := step st (Segment ns false fin rst payload ts goff) in
   o_calls (snd r) = [[mkR payload 0 false (rst || fin) ts 0]] /\
   o_new (snd r) = false /\ o_panic (snd r) = false /\ o_done (snd r) = (rst || fin) /\
   (if rst || fin then s_conn (fst r) = None
@@ -103,75 +103,122 @@ Theorem C10_multipage_queue_not_sorted :
   exists ops c, s_conn (fold_left (fun st o => fst (step st o)) ops (init 0 0)) = Some c /\
                 map p_seq (c_queue c) = [106; 2006; 111].
 Proof.
-  exists [Segment 100 true false false [] 1; Segment 111 false false false [1] 2;
-          Segment 106 false false false (repeat 7 1901) 3].
+  exists [Segment 100 true false false [] 1 0; Segment 111 false false false [1] 2 10;
+          Segment 106 false false false (repeat 7 1901) 3 5].
   eexists. vm_compute. split; reflexivity.
 Qed.
 
 (* ---- the stream theorem ---------------------------------------------------------------- *)
-(* PARTIAL with respect to C10_stream_statement below only in the form of the window
-   hypothesis: here the whole stream is shorter than 2^30 bytes (so every set of live offsets
-   lies in a window < 2^30); the initial sequence number i is arbitrary (wrap and quarter
-   boundaries included), as are segmentation, arrival order, duplicates, overlapping
-   retransmissions, SYN first/late/absent/with data, FIN/RST anywhere, FlushOlderThan/FlushAll
-   interleavings, timestamps and both page limits.  Conclusion: trace_ok (see the header). *)
-Theorem C10_stream_partial : forall i S mp mt ops,
-  0 <= i < 4294967296 -> lenZ S < 1073741824 -> Forall (op_ok i S) ops ->
-  trace_ok S ((mp <=? 0) && (mt <=? 0)) None (outs (init mp mt) ops).
-Proof.
-  intros i S mp mt ops Hi HS Hops.
-  exact (stream_inv i S Hi HS ops (init mp mt) None (init_ok i S mp mt) Hops).
-Qed.
-Print Assumptions C10_stream_partial.
+(* DESIGN.md section 5, C10_stream.  For every sender stream S (any length, also beyond 2^32),
+   every initial sequence number i, every history of operations consistent with (i,S) - any
+   segmentation, arrival order, duplicates, overlapping retransmissions, SYN first, late, absent,
+   repeated or carrying data, FIN/RST anywhere, any interleaving of FlushOlderThan/FlushAll, any
+   timestamps, both page limits - under the window hypothesis W (W_run: before every step the
+   live offsets - the delivery point when defined, start and end of every buffered page, start
+   and end of the arriving segment - lie in an interval of width < 2^30):
+     no step panics (panic("wtf"), the nil dereference of addNextFromConn, a[-1], out of fuel);
+     the elements handed to each stream obtained from the factory satisfy `chunk` in order, i.e.
+       with P the sum of Skip+len so far, an element's bytes are S[P+Skip, P+Skip+len): nothing
+       duplicated, reordered, altered or invented, every gap announced by a Skip of exactly its
+       size; Skip = -1 only as the very first element of a stream that never got its SYN, and
+       then the bytes are still a true slice of S; Start only on a first element, at offset 0;
+     an Assemble step in which no page limit fires delivers only Skip = 0.
+   The ghost offsets (Segment's last argument, p_off, c_pos) only serve to state W; the model
+   never tests them. *)
+Definition C10_stream_statement : Prop := forall i S mp mt ops,
+  0 <= i < 4294967296 -> Forall (op_ok i S) ops -> W_run (init mp mt) ops ->
+  trace_ok S None (outs (init mp mt) ops).
 
-(* `outs` pairs each operation with the model's output for it *)
-Theorem C10_outs_are_the_run : forall st ops, map snd (outs st ops) = map fst (run_trace st ops).
+Theorem C10_stream : C10_stream_statement.
+Proof.
+  intros i S mp mt ops Hi Hops HW.
+  exact (stream_inv i S Hi ops (init mp mt) None (init_ok i S mp mt) Hops HW).
+Qed.
+Print Assumptions C10_stream.
+
+(* streams shorter than 2^30 bytes need no window hypothesis *)
+Theorem C10_stream_short : forall i S mp mt ops,
+  0 <= i < 4294967296 -> lenZ S < 1073741824 -> Forall (op_ok i S) ops ->
+  trace_ok S None (outs (init mp mt) ops).
+Proof.
+  intros i S mp mt ops Hi HS Hops. apply (C10_stream i S mp mt ops); try assumption.
+  exact (small_W_run i S Hi ops HS (init mp mt) None (init_ok i S mp mt) Hops).
+Qed.
+Print Assumptions C10_stream_short.
+
+(* with no page limit configured no limit fires *)
+Theorem C10_no_limit_never_fires : forall st o,
+  s_maxPer st <= 0 -> s_maxTotal st <= 0 -> limit_fires st o = false.
+Proof. intros st o H1 H2. destruct o; cbn [limit_fires]; try reflexivity. apply limit_cond_off; assumption. Qed.
+
+(* `outs` lists each step of the model's run with its pre-state and operation *)
+Theorem C10_outs_are_the_run : forall st ops,
+  map (fun x => snd x) (outs st ops) = map fst (run_trace st ops).
 Proof. exact outs_run. Qed.
 
 (* non-vacuity: a consistent history across the wrap with reordering, an overlapping
-   retransmission, a multi-page segment cut by the limit, a late SYN and a FIN *)
+   retransmission, a multi-page segment, an age flush with a gap, a late SYN and a FIN; the
+   hypotheses of C10_stream hold for it and the elements delivered are as listed (skip, length) *)
+Definition ex_S : list Z := map (fun k => Z.of_nat k mod 251) (seq 0 2000).
+Definition ex_i : Z := 4294967290.
+Definition ex_ops : list op :=
+  [Segment (sq ex_i 10) false false false (sub ex_S 10 5) 1 10;
+   Segment ex_i true false false [] 2 0;
+   Segment (sq ex_i 0) false false false (sub ex_S 0 12) 3 0;
+   Segment (sq ex_i 40) false false false (sub ex_S 40 1950) 4 40;
+   Segment (sq ex_i 15) false false false (sub ex_S 15 20) 5 15;
+   FlushOlderThan 5;
+   Segment (sq ex_i 1990) false true false (sub ex_S 1990 10) 6 1990;
+   FlushAll].
+
 Example C10_stream_nonvacuous :
-  let S := map (fun k => Z.of_nat k mod 251) (seq 0 2000) in
-  let i := 4294967290 in
-  let ops := [Segment (sq i 10) false false false (sub S 10 5) 1;
-              Segment i true false false [] 2;
-              Segment (sq i 0) false false false (sub S 0 12) 3;
-              Segment (sq i 40) false false false (sub S 40 1950) 4;
-              Segment (sq i 15) false false false (sub S 15 20) 5;
-              FlushOlderThan 5;
-              Segment (sq i 1990) false true false (sub S 1990 10) 6;
-              FlushAll] in
-  Forall (op_ok i S) ops /\
-  map (fun x => map (map (fun r => (r_skip r, lenZ (r_bytes r)))) (o_calls (snd x))) (outs (init 0 3) ops)
+  0 <= ex_i < 4294967296 /\ Forall (op_ok ex_i ex_S) ex_ops /\ W_run (init 0 3) ex_ops /\
+  map (fun x => map (map (fun r => (r_skip r, lenZ (r_bytes r)))) (o_calls (snd x))) (outs (init 0 3) ex_ops)
   = [[]; [[(0, 0)]]; [[(0, 12); (0, 3)]]; []; [[(0, 20)]]; [[(5, 1900); (0, 50)]]; [[(0, 10)]]; []].
 Proof.
-  cbv zeta. split.
-  - assert (T : forall o seq (payload : list Z) (S : list Z) i fin ts,
-        (0 <=? o) && (o + lenZ payload <=? lenZ S) = true -> seq = sq i o -> payload = sub S o (lenZ payload) ->
-        op_ok i S (Segment seq false fin false payload ts)).
-    { intros o sq0 payload S0 i0 fin ts H1 H2 H3. exists o. apply andb_prop in H1. destruct H1 as [Ha Hb].
-      repeat split; try assumption; lia. }
-    repeat constructor.
-    + apply (T 10); vm_compute; reflexivity.
-    + vm_compute; discriminate.
-    + apply (T 0); vm_compute; reflexivity.
-    + apply (T 40); vm_compute; reflexivity.
-    + apply (T 15); vm_compute; reflexivity.
-    + apply (T 1990); vm_compute; reflexivity.
+  assert (Hi : 0 <= ex_i < 4294967296) by (unfold ex_i; lia).
+  assert (Hops : Forall (op_ok ex_i ex_S) ex_ops).
+  { assert (T : forall o seq (payload : list Z) fin ts,
+        (0 <=? o) && (o + lenZ payload <=? lenZ ex_S) = true -> seq = sq ex_i o ->
+        payload = sub ex_S o (lenZ payload) ->
+        op_ok ex_i ex_S (Segment seq false fin false payload ts o)).
+    { intros o sq0 payload fin ts H1 H2 H3. apply andb_prop in H1. destruct H1 as [Ha Hb].
+      cbn [op_ok]. repeat split; try assumption; lia. }
+    unfold ex_ops.
+    constructor; [apply (T 10); vm_compute; reflexivity|].
+    constructor; [cbn [op_ok]; vm_compute; repeat split; congruence|].
+    constructor; [apply (T 0); vm_compute; reflexivity|].
+    constructor; [apply (T 40); vm_compute; reflexivity|].
+    constructor; [apply (T 15); vm_compute; reflexivity|].
+    constructor; [exact I|].
+    constructor; [apply (T 1990); vm_compute; reflexivity|].
+    constructor; [exact I|constructor]. }
+  split; [exact Hi|]. split; [exact Hops|]. split.
+  - apply (small_W_run ex_i ex_S Hi ex_ops) with (pos := None); [vm_compute; reflexivity|apply init_ok|exact Hops].
   - vm_compute. reflexivity.
 Qed.
 
 (* ---- outside the window ---------------------------------------------------------------- *)
 (* The hypothesis is necessary: a segment 2^30+20 bytes ahead of the position (sequence numbers
-   3*2^30-10 and 10) is taken for old data by the quarter-space comparison and its bytes vanish
-   (an empty element, Skip = 0, nothing buffered), whereas 2^30-20 ahead it is buffered and later
-   delivered with the exact Skip. *)
+   3*2^30-10 and 10; W fails for that step) is taken for old data by the quarter-space
+   comparison and its bytes vanish (an empty element, Skip = 0, nothing buffered), whereas
+   2^30-20 ahead (W holds) it is buffered and later delivered with the exact Skip. *)
 Theorem C10_window_necessary :
-  let far := [Segment 3221225461 true false false [] 1; Segment 10 false false false [7;8;9] 2; FlushAll] in
-  let near := [Segment 3221225461 true false false [] 1; Segment 4294967266 false false false [7;8;9] 2; FlushAll] in
+  let far := [Segment 3221225461 true false false [] 1 0; Segment 10 false false false [7;8;9] 2 1073741844; FlushAll] in
+  let near := [Segment 3221225461 true false false [] 1 0; Segment 4294967266 false false false [7;8;9] 2 1073741804; FlushAll] in
   map (fun x => map (map (fun r => (r_skip r, r_bytes r))) (o_calls (fst x))) (run 0 0 far)
     = [[[(0, [])]]; [[(0, [])]]; []] /\
   map (fun x => map (map (fun r => (r_skip r, r_bytes r))) (o_calls (fst x))) (run 0 0 near)
-    = [[[(0, [])]]; []; [[(1073741804, [7;8;9])]]].
-Proof. vm_compute. split; reflexivity. Qed.
+    = [[[(0, [])]]; []; [[(1073741804, [7;8;9])]]] /\
+  ~ W_run (init 0 0) far /\ W_run (init 0 0) near.
+Proof.
+  cbv zeta. split; [vm_compute; reflexivity|]. split; [vm_compute; reflexivity|]. split.
+  - intros (_ & (lo & HF) & _).
+    match type of HF with Forall _ ?l => let v := eval vm_compute in l in change l with v in HF end.
+    inversion HF as [|x1 l1 H1 T1]; subst. inversion T1 as [|x2 l2 H2 T2]; subst.
+    unfold inw, quarter in *. lia.
+  - cbn [W_run]. repeat split; exists 0;
+      (match goal with |- Forall _ ?l => let v := eval vm_compute in l in change l with v end);
+      repeat constructor; unfold inw, quarter; lia.
+Qed.
 Print Assumptions C10_window_necessary.
